@@ -9,6 +9,7 @@ import (
 	"github.com/cloudwego/eino/components/model"
 	"github.com/cloudwego/eino/components/tool"
 	"github.com/cloudwego/eino/compose"
+	"github.com/cloudwego/eino/flow/agent"
 	"github.com/cloudwego/eino/schema"
 )
 
@@ -317,4 +318,56 @@ func VerifC18Embedded() {
 	}
 	vassert(rerr != nil && errors.Is(rerr, compose.ErrExceedMaxSteps), "a runaway model is stopped by the step-limit error, also when the agent runs as a node of another graph")
 	vassert(mdl.calls <= (maxStep+1)/2, "the configured step limit is the one enforced: no more model calls than it allows")
+}
+
+// return-directly also applies when the agent has no statically configured tool: the tool is answered by the
+// unknown-tool handler (or supplied per call); after it ran the agent returns its result without another model call
+func VerifC18DirectNoStaticTools() {
+	ctx := context.Background()
+	vcfg("fifo", 1)
+	vcfg("selectfirst", 1)
+	ix := 0
+	script := []*schema.Message{
+		{Role: schema.Assistant, Content: "call", ToolCalls: []schema.ToolCall{{Index: &ix, ID: "c1", Function: schema.FunctionCall{Name: "finish", Arguments: "x"}}}},
+		{Role: schema.Assistant, Content: "should not be asked"},
+	}
+	mdl := &c18Model{script: script, chunking: []int{0, 0}}
+	perCall := vchoose("perCall", 2) == 1
+	var runs []string
+	cfg := &AgentConfig{ToolCallingModel: mdl, MaxStep: 6, ToolReturnDirectly: map[string]struct{}{"finish": {}}}
+	if !perCall {
+		cfg.ToolsConfig = compose.ToolsNodeConfig{UnknownToolsHandler: func(ctx context.Context, name, input string) (string, error) {
+			return "handled:" + name + "(" + input + ")", nil
+		}}
+	}
+	ag, err := NewAgent(ctx, cfg)
+	vassert(err == nil, "an agent without static tools is created")
+	var opts []agent.AgentOption
+	want := "handled:finish(x)"
+	if perCall {
+		opts = append(opts, agent.WithComposeOptions(compose.WithToolsNodeOption(compose.WithToolList(&c18Tool{"finish", &runs}))))
+		want = "r_finish(x)"
+	}
+	var out *schema.Message
+	var rerr error
+	if vchoose("stream", 2) == 1 {
+		sr, e := ag.Stream(ctx, []*schema.Message{schema.UserMessage("q")}, opts...)
+		rerr = e
+		if e == nil {
+			var chunks []*schema.Message
+			for i := 0; i < 8; i++ {
+				c, e := sr.Recv()
+				if e != nil {
+					break
+				}
+				chunks = append(chunks, c)
+			}
+			sr.Close()
+			out, rerr = schema.ConcatMessages(chunks)
+		}
+	} else {
+		out, rerr = ag.Generate(ctx, []*schema.Message{schema.UserMessage("q")}, opts...)
+	}
+	vassert(rerr == nil && out != nil, "the run succeeds")
+	vassert(out.Content == want && mdl.calls == 1, "the result of the return-directly tool is the answer, without another model call")
 }
